@@ -61,6 +61,12 @@ def run_variant(args):
         open_keys = {k["key"] for k in known.get("open", [])}
         viol = [o for o in viol if o.key not in open_keys]
         exp = v["expect"]
+        if exp == "NOT-VIOLATED":
+            # a behaviour-preserving rewrite the check is known not to follow (recorded in refactors/EXPECTED_UNDECIDED.json): it may
+            # refuse to certify the tree (UNDECIDED) -- or decide it, should the rules have improved -- but never report a violation
+            if viol:
+                return v["id"], "fail", "behaviour-preserving variant was reported: %s %s" % (viol[0].verdict, viol[0].text()[:200])
+            return v["id"], "ok", ""
         if exp == "HOLDS":
             if viol or und:
                 o = (viol + und)[0]
@@ -77,7 +83,7 @@ def run_variant(args):
         return v["id"], "fail", "breaking variant not reported by %s (violations: %s; undecided: %s)" % (
             rule, [o.rule for o in viol][:4], [o.rule for o in und][:4])
     except AnalysisError as e:
-        if v["expect"] == "UNDECIDED":
+        if v["expect"] in ("UNDECIDED", "NOT-VIOLATED"):
             return v["id"], "ok", ""
         return v["id"], "fail", "analysis error: %s" % e
     except Exception:
@@ -151,16 +157,21 @@ def _patched_overrides(repo, patch):
 def _refactor_variants(prop, repo):
     """The behaviour-preserving corpus (sub-agent refactors confirmed by their demonstrations and the test suite): every one of
     them must leave every property's check silent -- also the checks of the other properties."""
+    import json
     rdir = os.path.join(HERE, "refactors")
     out = []
     if not os.path.isdir(rdir):
         return out
+    try:
+        undecided = json.load(open(os.path.join(rdir, "EXPECTED_UNDECIDED.json")))
+    except Exception:
+        undecided = {}
     for rid in sorted(os.listdir(rdir)):
         patch = os.path.join(rdir, rid, "patch.diff")
         if not os.path.exists(patch):
             continue
         ov = _patched_overrides(repo, patch)
-        out.append(dict(prop=prop, id="refactor/" + rid, overrides=ov, expect="HOLDS"))
+        out.append(dict(prop=prop, id="refactor/" + rid, overrides=ov, expect="NOT-VIOLATED" if prop in undecided.get(rid, {}) else "HOLDS"))
     return out
 
 
